@@ -1,5 +1,5 @@
 From Coq Require Import List String ZArith QArith Bool Arith Ascii.
-From Naunet Require Import Lib.Sexp Lib.ListX Model.Renorm Wire.WRates.
+From Naunet Require Import Lib.Sexp Lib.ListX Lib.PyStr Model.CExpr Model.OdeText Model.SumText Model.Renorm Model.RenormText Wire.WRates.
 Import ListNotations.
 Close Scope Q_scope.
 Open Scope string_scope.
@@ -25,6 +25,36 @@ Definition handle_renorm (cmd : string) (args : list sexp) : option sexp :=
             Some (L [L (map (fun l => L (map put_term l)) (matrix elA sps));
                      L (map (fun o => match o with None => A "one" | Some l => L (map put_term l) end) (factors elA sps))])
         | _, _ => Some (err "bad args")
+        end
+    | _ => Some (err "bad args")
+    end
+  else if String.eqb cmd "renorm.text" then
+    (* the texts of C16.matrix_text_value / factor_text_value: printed numbers appear as {num/den} (the harness
+       writes them as Python prints the float), identifiers as the given aliases / element names *)
+    match args with
+    | [elA; sps; als; els] =>
+        match get_list get_Q elA, get_list get_rsp sps, get_list get_str als, get_list get_str els with
+        | Some elA, Some sps, Some als, Some els =>
+            let hn := List.length sps in
+            let qtxt := fun q : Q => match put_Q (Qred q) with A t => chars ("{" ++ t ++ "}") | _ => [] end in
+            let magt := fix magt (a : nat) (l : list term) (i : nat) : list ascii :=
+                          match l with
+                          | [] => []
+                          | t :: r => if Nat.eqb i (2 * a) then qtxt (fst (fst t))
+                                      else if Nat.eqb i (2 * a + 1) then qtxt (snd t) else magt (S a) r i
+                          end in
+            let sname := fun k => if Nat.eqb k hn then chars "Hnuclei" else chars ("IDX_" ++ nth k als "?") in
+            let ename := fun j => chars ("IDX_ELEM_" ++ nth j els "?") in
+            Some (L [L (map (fun l => A (str (flatten_with (magt 0 l) sname (matrix_entry_txt hn (atoms_from 0 l)))))
+                            (matrix elA sps));
+                     L (map (fun o => match o with
+                                      | None => A "one"
+                                      | Some l => match factor_txt (atoms_from 0 l) with
+                                                  | Some t => A (str (flatten_with (magt 0 l) ename t))
+                                                  | None => A "one"
+                                                  end
+                                      end) (factors elA sps))])
+        | _, _, _, _ => Some (err "bad args")
         end
     | _ => Some (err "bad args")
     end
